@@ -52,6 +52,7 @@ func hC15(n, prefix, L, vlen int) {
 	}
 	sub := db.opts.FileSystem
 	r := newRef(n, 8)
+	vAgeLog(db) // steady workload on an old log: sequence ids beyond 16 bits
 	for i := 0; i < prefix; i++ {
 		applyOp(db, r, 0, i%n, vlen, "C15.prefix")
 	}
